@@ -1,5 +1,5 @@
 (** C01 — escrow is exactly backed: holdings equal recorded obligations. *)
-From FM Require Import Backed Reentrant.
+From FM Require Import Backed Reentrant CallSeqLedger.
 
 (** [fresh w]: a freshly instantiated marketplace that holds nothing, next to an empty
     registry; everything else — user balances, token ledgers, NFT owners, admins, start time —
@@ -113,6 +113,15 @@ Print Assumptions C01_escrow_backed_with_reentry.
 Theorem C01_reentry_conservative : forall w o, rstep w o [] = step w o.
 Proof. exact rstep_no_program. Qed.
 Print Assumptions C01_reentry_conservative.
+
+(** Contract-level, under every interleaving (proofs/CallSeqLedger.v): along any sequence of
+    successful marketplace calls — any senders, order or nesting — with [deposited] / [sent_out]
+    the totals of asset [x] that the calls deposited and their responses sent. *)
+Theorem C01_conservation_under_every_interleaving : forall x d s s' deposited sent_out chg psent,
+  Inv s -> mtrace x d s s' deposited sent_out chg psent ->
+  owed x s' + sent_out = owed x s + deposited.
+Proof. exact conservation_under_every_interleaving. Qed.
+Print Assumptions C01_conservation_under_every_interleaving.
 
 (** Non-vacuity: the hostile contract 70 owns a bucket of 100 coins and 5 of its own "tokens";
     withdrawing it, it is handed the coins, then the token transfer — during which it withdraws
